@@ -86,6 +86,9 @@ pub struct IfaceView<'a> {
     pub contexts: Vec<[u8; 8]>,
     /// UDP datagrams to port 53 / 5353 come from a DNS socket and are judged as DNS messages (default: false)
     pub dns_on_53: bool,
+    /// AnyIP is enabled: destinations of the packets handed to the interface so far (an answer may
+    /// legitimately come from any of them)
+    pub any_ip_dsts: Vec<Addr>,
 }
 
 pub fn never_raw(_p: &[u8]) -> bool {
@@ -94,7 +97,7 @@ pub fn never_raw(_p: &[u8]) -> bool {
 
 impl<'a> IfaceView<'a> {
     pub fn new(addrs: Vec<(Addr, u8)>) -> IfaceView<'static> {
-        IfaceView { addrs, dhcp_unconfigured: false, is_raw: &never_raw, contexts: Vec::new(), dns_on_53: false }
+        IfaceView { addrs, dhcp_unconfigured: false, is_raw: &never_raw, contexts: Vec::new(), dns_on_53: false, any_ip_dsts: Vec::new() }
     }
     pub fn from_iface(iface: &smoltcp::iface::Interface) -> IfaceView<'static> {
         let addrs = iface
@@ -490,7 +493,14 @@ fn check_source(ipi: &ip::IpInfo, exempt: SrcExempt, view: &IfaceView, fam: &str
         );
         return;
     }
-    if !view.owns(&src) {
+    if src.is_loopback() {
+        s.bad(
+            &format!("{}:source:loopback", fam),
+            format!("{} sent from the loopback address {} to {} on a physical link (interface addresses: {})", what, src, ipi.dst, addr_list(view)),
+        );
+        return;
+    }
+    if !view.owns(&src) && !view.any_ip_dsts.contains(&src) {
         s.bad(
             &format!("{}:source:not-own", fam),
             format!("{} sent from {} to {}, which is none of the interface's addresses ({})", what, src, ipi.dst, addr_list(view)),
